@@ -10,6 +10,7 @@ import ast
 import itertools
 import math
 import threading
+import time
 
 import numpy as np
 
@@ -307,6 +308,9 @@ Definition owned (c : nat * nat * nat) : list (list (nat * nat)) :=
     # 3c. forced interleavings (turnstile inside the integrand) on stubs and on a real basis
     _interleavings(ctx)
 
+    # 3d. schedules in which workers START late (the OS need not run a new thread at once)
+    _late_start(ctx)
+
     # 4. oracle on real bases: threaded == serial bit for bit, all k
     _oracle_real(ctx)
 
@@ -387,6 +391,56 @@ Definition trace (c : nat * nat * nat * list nat) : option (list (nat * nat)) :=
     if 'gen/C16Gen.v' in ''.join(ctx.checker_cmds) and not any(b['kind'] == 'translator' for b in ctx.broken):
         ctx.corr('schedules', 'Require Import Model.Threads Gen.C16Gen.\nFrom Coq Require Import List Arith Bool.',
                  'trace', '(option_eqb (list_eqb pair_eqb))', sched_cases, defs=defs)
+
+
+def _late_start(ctx):
+    """A new worker thread may begin executing arbitrarily late - e.g. after the main thread has created and
+    started all others.  Realised through the standard library only: Thread.run of selected workers sleeps first."""
+    from skfem.assembly import BilinearForm
+    rng = ctx.rng
+    orig_run = threading.Thread.run
+    rule = [lambda k: False]
+    started = []
+    lk = threading.Lock()
+
+    def slow_run(self):
+        with lk:
+            k = len(started)
+            started.append(self)
+        if rule[0](k):
+            time.sleep(0.03)
+        return orig_run(self)
+    rules = [('all-late', lambda k: True), ('first-late', lambda k: k == 0), ('odd-late', lambda k: k % 2 == 1),
+             ('last-early', lambda k: k < 2)]
+    confs = [(2, 3, 2), (3, 2, 3), (2, 2, 4)] if ctx.quick() else [(2, 3, 2), (3, 2, 3), (2, 2, 4), (3, 3, 5), (1, 4, 3), (4, 2, 10)]
+    threading.Thread.run = slow_run
+    try:
+        for Nu, Nv, k in confs:
+            nt, nq = 2, 1
+            u = Stub(5, [[rng.randrange(5) for _ in range(nt)] for _ in range(Nu)], [1 + j for j in range(Nu)], nq)
+            v = Stub(6, [[rng.randrange(6) for _ in range(nt)] for _ in range(Nv)], [10 * (i + 1) for i in range(Nv)], nq)
+            serial = BilinearForm(lambda uu, vv, w: uu * vv)._assemble(u, v)
+            for name, r in rules:
+                rule[0] = r
+                del started[:]
+                calls = []
+
+                def form(uu, vv, w):
+                    calls.append((float(uu.value[0, 0]), float(vv.value[0, 0])))
+                    return uu * vv
+                got = BilinearForm(form, nthreads=k)._assemble(u, v)
+                ctx.count(('late-start', Nu, Nv, k, name), nontrivial=True)
+                if not (np.array_equal(got[1], serial[1]) and np.array_equal(got[0], serial[0])):
+                    ctx.fail(f'late-start!=serial:{name}:Nu={Nu}:Nv={Nv}:k={k}',
+                             'threaded assembly differs from serial when worker threads begin executing late',
+                             {'Nu': Nu, 'Nv': Nv, 'k': k, 'rule': name, 'serial': serial[1].tolist(), 'got': got[1].tolist()})
+                elif len(calls) != Nu * Nv or len(set(calls)) != Nu * Nv:
+                    ctx.fail(f'late-start-pairs-once:{name}:Nu={Nu}:Nv={Nv}:k={k}',
+                             'with late-starting workers not every local pair is computed exactly once',
+                             {'Nu': Nu, 'Nv': Nv, 'k': k, 'rule': name, 'calls': calls})
+    finally:
+        threading.Thread.run = orig_run
+    ctx.extra['late_start_rules'] = [n for n, _ in rules]
 
 
 def _multiset_perms(items):
